@@ -31,6 +31,7 @@ fn eval(op: &str, args: &[&str]) -> Option<Vec<String>> {
         "estep" => c03::estep(args),
         "wire" => c03::wire(args),
         "wire2" => c03::wire2(args),
+        "bigwire" => c03::bigwire(args),
         "parse" => c15::parse(args),
         "rr" => c15::rr(args),
         "sinfo" => c15::sinfo(args),
@@ -70,6 +71,7 @@ fn eval(op: &str, args: &[&str]) -> Option<Vec<String>> {
         "b64" => c10::b64(args),
         "sendmsg" => c18::sendmsg(args),
         "mailparam" => c04::mailparam(args),
+        "urlcred" => c04::urlcred(args),
         "ehlocmd" => c04::ehlocmd(args),
         "mailstd" => c04::mailstd(args),
         _ => None,
